@@ -209,6 +209,9 @@ fn run_worker(exe: &Path, prop: &str, tier: Tier, seed: u64, start: u64, step: u
     let mut child = Command::new(exe)
         .args(["worker", prop, tier.name(), &seed.to_string(), &start.to_string(), &step.to_string(), &count.to_string(), &secs.to_string()])
         .env("QESIM_GATE", if gate { "1" } else { "0" })
+        // the process-global rayon pool differs per worker process (only worlds that
+        // deliberately use the global pool see it; deterministic worlds install their own)
+        .env("RAYON_NUM_THREADS", [2usize, 3, 4, 6, 8, 16][(start % 6) as usize].to_string())
         .stdout(Stdio::piped())
         .stderr(Stdio::piped())
         .spawn()
@@ -478,7 +481,14 @@ pub fn check_main(spec: &CheckSpec, tier: Tier) -> i32 {
         let gj = (jobs() / 2).max(1) + 1;
         match spawn_workers(spec.prop, tier, seed, gate_n, gj, secs, true) {
             Ok(g) => {
+                let dirty: BTreeSet<u64> = main.violations.iter().map(|v| v.0).chain(g.violations.iter().map(|v| v.0)).collect();
                 for (run, h) in &g.log_hashes {
+                    // a run that reported a violation is already an alarm (or a listed
+                    // finding); wrong answers may legitimately depend on per-process hash
+                    // seeds, so only clean runs are required to repeat bit for bit
+                    if dirty.contains(run) {
+                        continue;
+                    }
                     match main.log_hashes.get(run) {
                         Some(h0) if h0 == h => gate_identical += 1,
                         Some(h0) => {
@@ -535,7 +545,17 @@ pub fn check_main(spec: &CheckSpec, tier: Tier) -> i32 {
         // the minimised file must reproduce in a fresh process, otherwise it is
         // reported as unreproduced, never as a verdict
         let exe = std::env::current_exe().unwrap();
-        let st = Command::new(&exe).args(["replay", spec.prop, path.to_str().unwrap()]).stdout(Stdio::null()).stderr(Stdio::null()).status();
+        let mut st = Command::new(&exe).args(["replay", spec.prop, path.to_str().unwrap()]).stdout(Stdio::null()).stderr(Stdio::null()).status();
+        // wrong answers that depend on per-process hash seeds reproduce statistically:
+        // retry a clean replay a few times before calling it unreproduced
+        let mut attempts = 1;
+        while attempts < 6 && matches!(st.as_ref().map(|s| s.code()), Ok(Some(0))) {
+            st = Command::new(&exe).args(["replay", spec.prop, path.to_str().unwrap()]).stdout(Stdio::null()).stderr(Stdio::null()).status();
+            attempts += 1;
+        }
+        if attempts > 1 {
+            println!("  (replay needed {attempts} attempts: statistical reproduction)");
+        }
         match st.map(|s| s.code()) {
             Ok(Some(1)) => {}
             // the replay process itself died: that IS the reproduction of a process death
